@@ -135,6 +135,14 @@ def one(ctx, i, tmpdir):
     modname = "zqgenin_{}_{}_{}".format(os.getpid(), ctx.shard[0], i)
     src, names, feats, expect = build_input(rng, i)
     in_fn = os.path.join(tmpdir, modname + ".py")
+    nested = (i // 5) % 3 == 1
+    if nested:
+        # the mapping lives in a module of a package (pkg.sub.input_map) that nothing has imported yet
+        pkg = "zqgenpkg_{}_{}_{}".format(os.getpid(), ctx.shard[0], i)
+        os.makedirs(os.path.join(tmpdir, pkg), exist_ok=True)
+        open(os.path.join(tmpdir, pkg, "__init__.py"), "w").close()
+        in_fn = os.path.join(tmpdir, pkg, "zqsub.py")
+        modname = pkg + ".zqsub"
     with open(in_fn, "w") as f:
         f.write(src)
     type_ = ("class", "argparse", "function")[i % 3]
@@ -145,7 +153,7 @@ def one(ctx, i, tmpdir):
         prepend = "import math\n" + prepend
     out_fn = os.path.join(tmpdir, "out_{}.py".format(i))
     via = "cli" if i % 8 == 5 else "api"
-    base = dict(op=OP, type=type_, name_tpl=tpl, prepend=prepend is not None, imports_from_file=imports_from_file is not None, via=via,
+    base = dict(op=OP, type=type_, name_tpl=tpl, prepend=prepend is not None, imports_from_file=imports_from_file is not None, via=via, mapping_in_a_package=nested,
                 **{k: v for k, v in feats.items() if k != "obj_kind"})
     replay = {"case": i, "seed": ctx.seed, "tier": ctx.tier, "input": src, "type": type_, "name_tpl": tpl, "prepend": prepend, "imports_from_file": bool(imports_from_file)}
     ctx.case((type_, tpl, prepend is not None, imports_from_file is not None, feats["n_entries"], feats["n_import_lines"], feats["annotated"],
@@ -185,6 +193,8 @@ def one(ctx, i, tmpdir):
     finally:
         sys.path.remove(tmpdir)
         sys.modules.pop(modname, None)
+        if nested:
+            sys.modules.pop(modname.split(".")[0], None)
     ctx.event("gen_runs")
     if exc is not None:
         ctx.report_exception(exc, base, replay, stage="gen") if via == "api" else ctx.report(
